@@ -16,7 +16,8 @@ MANIFEST = {
 THEOREMS = ['C14.postOrder_nodup', 'C14.eval_order', 'C14.eval_prefix', 'C14.eval_complete', 'C14.eval_postorder', 'C14.eval_application',
             'C14.depth_refused', 'C14.depth_error', 'C14.getCommand_prefix', 'C14.getCommand_enabled',
             'C14.owns_not_disabled', 'C14.dispatch_qualified', 'C14.dispatch_ambiguous', 'C14.ambiguous_runs_nothing',
-            'C14.dispatch_unique', 'C14.special_table_ok', 'C14.canonicalName_idem']
+            'C14.dispatch_unique', 'C14.special_table_ok', 'C14.canonicalName_idem',
+            'C14.disabled_history', 'C14.disabled_step', 'C14.enable_error_erases_entry']
 TRUSTED = ['Lean 4.33.0 kernel; axioms ⊆ {propext, Classical.choice, Quot.sound}',
            'harness/extractors/canonicalname.py (the `special` characters of canonicalName → Gen/CanonicalName.lean)',
            'harness/c14.py: introspection of the loaded plugins (names, command methods, nested groups) into the model input; generators; canonicalisation of the bot\'s replies',
@@ -45,6 +46,15 @@ class Live(object):
         b.conf.supybot.reply.withNickPrefix.setValue(False)
         b.conf.supybot.reply.whenNotCommand.setValue(True)
         bot.register_welcome(b)
+        try:
+            b.ircdb.users.getUserId('own!er@vt.host')
+        except KeyError:
+            u = b.ircdb.users.newUser()
+            u.name = 'vtowner'
+            u.addCapability('owner')
+            u.addHostmask('own!er@vt.host')
+            b.ircdb.users.setUser(u)
+        self.success_text = b.conf.supybot.replies.success()
         self.log = []
         self._mcache = {}
         live = self
@@ -131,6 +141,7 @@ class Live(object):
                 continue
             L.append('default\t%s\t%s' % (wire.enc(name), wire.enc(child())))
         L.append('important\t' + wire.enc_list(sorted(dp.importantPlugins())))
+        L.append('dconf\t' + wire.enc_list(sorted(self.conf.supybot.commands.disabled())))
         L.append('cfg\t%d\t%d\t%d\t%s\t%s\t0' % (w['maxNesting'], w['maxLen'], w['detailed'], wire.enc(self.error_text),
                                                 wire.enc('IndexError: list index out of range')))
         return L
@@ -183,6 +194,24 @@ class Live(object):
         b.world.vt_c14_calls = None
         return dict(msgs=[(m.command, m.args[0], m.args[1]) for m in out if m.command in ('PRIVMSG', 'NOTICE')],
                     calls=list(calls), body_calls=list(b.world.vt_c14_log), ignored=bool(msg.tagged('ignored')), crash=crash)
+
+    def owner_cmd(self, text):
+        """run a real Owner command as the owner; -> 'ok' | 'err' | other reply text"""
+        b = self.b
+        b.world.vt_c14_calls = None
+        msg = b.ircmsgs.privmsg('#vt', '@' + text, prefix='own!er@vt.host')
+        b.irc.feedMsg(msg)
+        out = [m.args[1] for m in bot.drain(b) if m.command in ('PRIVMSG', 'NOTICE')]
+        if out == [self.success_text]:
+            return 'ok'
+        if len(out) == 1 and out[0].startswith('Error: '):
+            return 'err'
+        return 'other:' + ' || '.join(out)
+
+    def store_dump(self):
+        d = self.cb.Commands._disabled.d
+        ents = sorted((self.cb.canonicalName(k), None if d[k] is None else sorted(d[k])) for k in list(d.keys()))
+        return ents, sorted(self.conf.supybot.commands.disabled())
 
     def find(self, args):
         b = self.b
@@ -267,6 +296,32 @@ def cut_foreign(outcome, calls, ig):
         if is_foreign(call):
             return 'foreign\t@\t%s' % canon_calls(calls[:k + 1])
     return '%s\t@\t%s\t%s' % (outcome, canon_calls(calls), ig)
+
+FINDING_ENABLE = 'C14-global-enable-error-erases-plugin-entry'
+
+def in_enable_class(history, since, c, cn):
+    """known-finding class: after the per-plugin disable of `c` (index `since`) a GLOBAL-form `enable c` was
+    answered with an error ("That command wasn't disabled.") — it has nevertheless deleted the whole
+    store entry of `c`, per-plugin disables included"""
+    for (text, rep) in history[since + 1:]:
+        w = text.split()
+        if w[0] == 'enable' and len(w) == 2 and cn(w[1]) == c and rep == 'err':
+            return True
+    return False
+
+def canon_store(ents, confset):
+    return '%s # %s' % (';'.join('%s=%s' % (k, '~' if v is None else '+'.join(v)) for k, v in ents) or '-', ','.join(confset) or '-')
+
+def model_store(o):
+    f = o.split('\t')
+    if len(f) != 3:
+        return o
+    ents = []
+    if f[1] != '-':
+        for item in f[1].split(';'):
+            k, v = item.split(':')
+            ents.append((wire.dec(k), None if v == '~' else sorted(wire.dec_list(v))))
+    return f[0] + ' ' + canon_store(sorted(ents, key=lambda e: e[0]), sorted(wire.dec_list(f[2])))
 
 def canon_calls(calls):
     return ' | '.join('%s:%s:%s' % (p, ' '.join(c), json.dumps(a, ensure_ascii=True)) for (p, c, a) in calls) or '-'
@@ -558,7 +613,7 @@ def explore(live, r, n_worlds, per_world, corpus=()):
             tags = ['eval', canon_result(res).split('\t')[0], 'calls%d' % min(len(res['calls']), 4)]
             if any(isinstance(x, list) for x in tokens): tags.append('nested')
             if res['calls'] and any(c[0] == 'VtOrderC' for c in res['calls']): tags.append('threaded')
-            c = Case(dict(op='eval', tokens=tokens, world=winfo), impl=impl, oracle_ok=ok,
+            c = Case(dict(op='eval', tokens=tokens, world=winfo, _calls=[list(x) for x in res['calls']] if kind == 'dseq' else None), impl=impl, oracle_ok=ok,
                      oracle_msg=('' if ok else 'tokens %r under %r: %s' % (tokens, winfo, msg)), kind=kind, tags=tags)
             def post(o, c=c):
                 f = o.split('\t@\t')
@@ -606,6 +661,66 @@ def explore(live, r, n_worlds, per_world, corpus=()):
             add_eval(gen_mixed(r, r.randint(1, 3)), 'ign', ignored0=True)
         for _ in range(per_world.get('deep', 0)):
             add_eval(gen_deep(r, w['maxNesting']), 'deep', check_full=full_applicable(w))
+        if per_world.get('dseq', 0):
+            # sequences of REAL `disable` / `enable` commands (per plugin and global, interleaved) with the
+            # statement tracked independently: a command disabled for P (or everywhere) and not enabled again never runs in P
+            marks = set(); glob = set()
+            cn = live.cb.canonicalName
+            for (k, v) in live.store_dump()[0]:
+                if v is None: glob.add(k)
+                else: marks.update((p, k) for p in v)
+            shared = ['rone', 'both', 'nrep', 'rbee', 'rtwo', 'erro', 'rdis', 'igno', 'r-one', 'Both', 'enable', 'nosuch']
+            plug = ['VtOrderA', 'VtOrderB', 'VtOrderC', 'vtordera', 'VTORDERB', 'Misc']
+            history = []
+            last_marked = {}      # (plugin, command) -> index in history of the successful per-plugin disable
+            for _ in range(per_world['dseq']):
+                verb = r.choice(['disable', 'disable', 'enable'])
+                P = r.choice(plug) if r.random() < 0.65 else None
+                c0 = r.choice(shared)
+                c = cn(c0)
+                text = '%s %s%s' % (verb, (P + ' ') if P else '', c0)
+                rep = live.owner_cmd(text)
+                history.append([text, rep.split(':')[0]])
+                impl = rep + ' ' + canon_store(*live.store_dump())
+                if P is not None:
+                    cbP = live.b.irc.getCallback(P)
+                    idx = live.top.index(cbP)
+                if verb == 'disable':
+                    line = 'odisable\t%s\t%s' % ('~' if P is None else idx, wire.enc(c))
+                else:
+                    line = 'oenable\t%s\t%s' % ('~' if P is None else wire.enc(cbP.name()), wire.enc(c))
+                if rep == 'ok':
+                    if verb == 'disable':
+                        if P is None:
+                            glob.add(c)
+                        else:
+                            marks.add((cn(cbP.name()), c)); last_marked[(cn(cbP.name()), c)] = len(history) - 1
+                    elif P is None:
+                        glob.discard(c); marks = set(m for m in marks if m[1] != c)
+                    else:
+                        marks.discard((cn(cbP.name()), c))
+                add(Case(dict(op='owner', text=text, history=list(history), world=winfo), impl=impl, kind='dseq',
+                         tags=('dseq', verb, 'plugin' if P else 'global', rep.split(':')[0])), line, model_store)
+                for _ in range(2):
+                    g = TreeGen(r)
+                    def pick():
+                        cc = r.choice(shared[:8])
+                        return [r.choice(['vtordera', 'vtorderb', 'vtorderc']), cc] if r.random() < 0.7 else [cc]
+                    tokens = g.node(r.randint(0, 2), pick)
+                    n_before = len(cases)
+                    add_eval(tokens, 'dseq')
+                    cse = cases[-1]
+                    if cse.oracle_ok:
+                        res_calls = cse.input.get('_calls', [])
+                        for (pl, cmdw, a) in res_calls:
+                            if (cn(pl), cmdw[-1]) in marks or cmdw[-1] in glob:
+                                cse.oracle_ok = False
+                                cse.oracle_msg = 'after the owner commands %r: %s.%s ran (args %r) although it is disabled and was not enabled again' % (history, pl, cmdw[-1], a)
+                                cse.input['history'] = [list(h) for h in history]
+                                if in_enable_class(history, last_marked.get((cn(pl), cmdw[-1]), -1), cmdw[-1], cn):
+                                    cse.finding = FINDING_ENABLE
+                                break
+                    cse.input.pop('_calls', None)
         names = sorted(set(BARE + [x for rec in live.records for x in rec[4][:6]] + [rec[2].lower() for rec in live.records]))
         def qualified():
             # a (possibly nested) plugin / group path followed by one of its methods
@@ -682,13 +797,27 @@ def fill(cases, lines, pend):
         c.model = post(o) if post else o
     return cases
 
+def finding_status(live):
+    st = {}
+    for f in verdict.load_findings(PROPERTY):
+        w = f.get('witness', {})
+        if 'owner_commands' not in w:
+            continue
+        live.set_world(gen_world(None, 0))
+        reps = [live.owner_cmd(t) for t in w['owner_commands']]
+        res = live.run(w['then'])
+        ran = bool(res['calls'])
+        st[f['id']] = (ran and reps[-1] == 'err', 'owner commands %r answered %r, then %r ran: %s' % (w['owner_commands'], reps, w['then'], canon_calls(res['calls'])))
+        live.set_world(gen_world(None, 0))
+    return st
+
 def load_corpus():
     try:
         return json.load(open(os.path.join(CORPUS, 'C14', 'cases.json')))
     except OSError:
         return []
 
-QUICK = dict(full=30, mixed=60, deep=10, feed=12, ign=6, disp=80, canon=10)
+QUICK = dict(full=30, mixed=60, deep=10, feed=12, ign=6, disp=80, canon=10, dseq=8)
 
 def run(ctx):
     build = leanbuild.ensure(PROPERTY, THEOREMS, thorough=ctx.thorough, extractors=['CanonicalName'])
@@ -701,9 +830,10 @@ def run(ctx):
         import random
         rr = random.Random('%d/c14-search' % ctx.seed)
         seeds = [dict(tokens=d.input['tokens']) for d in disagreements[:50] if d.input.get('op') == 'eval']
-        more, _, _ = explore(live, rr, 30, dict(full=40, mixed=80, deep=10, feed=15, disp=80), seeds)
+        more, _, _ = explore(live, rr, 30, dict(full=40, mixed=80, deep=10, feed=15, disp=80, dseq=12), seeds)
         return [c for c in more if c.oracle_ok is False]
     return verdict.conclude(PROPERTY, ctx.tier, ctx.seed, build, cases, search=search, rule=RULE, trusted_base=TRUSTED,
+                            finding_status=finding_status(live),
                             assumptions=['command bodies use their irc object at most once (reply / noReply / error / nothing / raise)',
                                          'command and plugin names are ASCII (canonicalName case folding)',
                                          'threaded commands are joined before the log is read (scheduling against other traffic is not modelled)',
